@@ -80,9 +80,6 @@ Proof.
 Qed.
 
 (* ------------------------------------------------------------------ predicate symbols of a formula *)
-Lemma kwi_atom p ts : kwi_atomic (AAtom p ts) = kw_prefixed p.
-Proof. unfold kwi_atomic. cbn [print_atomic]. unfold print_atom. destruct ts; reflexivity. Qed.
-
 Lemma Okf_predicates f : forall p, Okf f -> In p (predicates f) ->
   is_symbol_name (psym p) = true /\ kw_prefixed (psym p) = false.
 Proof.
